@@ -738,17 +738,7 @@ def rule_C6(prog):
         if fn is None or not fn.mir:
             continue
         info = d.carriers.get(path, {"params": [], "field": False})
-        # only functions that really hold a deadline value: a parameter, or a field they read
         bodies = [fn] + list(prog.closures_of.get(path, []))
-        if not info["params"] and info["field"]:
-            reads = False
-            for b in bodies:
-                for blk in b.mir.blocks:
-                    for s in blk["stmts"]:
-                        if s["k"] == "assign" and "deadline" in str(s["rv"]):
-                            reads = True
-            if not reads and not _calls_deadline_taker(d, fn):
-                continue
         for b in bodies:
             for bb, t in b.mir.calls():
                 c = b.mir.callee(t)
